@@ -7,6 +7,7 @@ from hypothesis import strategies as st
 
 from pbt import ci as cim
 from pbt.runner import Violation, must, check
+from pbt.poison import poison
 
 PROPERTY = "C01"
 LEVEL = "exploration"
@@ -92,6 +93,7 @@ def roundtrip(case):
     doc = json.loads(text)
     d = diff(cim.expected_doc(desc), doc)
     check(d is None, "document-differs-from-description", lambda: "expected document vs dumps(): %s" % d)
+    poison(obj), poison(again), poison(doc)
     return {"nontrivial": cim.is_nontrivial(desc), "labels": cim.labels(desc)}
 
 
